@@ -326,6 +326,8 @@ type Env struct {
 	Sqrt map[string]Rat
 	// MaxCases caps the number of leaves (0 = 64).
 	MaxCases int
+	// IteAsAtom treats gated joins as opaque atoms instead of splitting cases.
+	IteAsAtom bool
 	// Err is set when the conversion gave up.
 	Err error
 }
@@ -521,6 +523,9 @@ func (e *Env) cases(t *sym.Term) []Case {
 		}
 		return one(e.atom(t))
 	case "ite":
+		if e.IteAsAtom {
+			return one(e.atom(t))
+		}
 		var out []Case
 		c := t.Args[0]
 		for _, x := range e.cases(t.Args[1]) {
